@@ -1,5 +1,8 @@
 import OV.Lemmas.C06Sound
 import OV.Lemmas.C06Top
+import OV.Lemmas.C06Complete
+import OV.Lemmas.C06Solve
+import OV.Lemmas.C06SolveC
 /-!
 # C06 — the pattern matcher reports a match exactly when the subgraph is an instance
 
@@ -45,6 +48,21 @@ theorem bindings_exact_partial (E : Env) (root : NodeId) (rm : Bool) (r : Result
       (∀ nm, some nm ∈ E.p.inputs → ∃ b, r.assign.names nm = some b) :=
   patternMatch_exact E root rm r hno htopo har h
 
+/-- **Completeness — OR-free patterns with one output node.**  If some assignment `A` makes the
+subgraph ending at `root` an instance of the pattern and every attached checker accepts under `A`,
+then — for a pattern without `OrValue`, topologically ordered, with a single output node `np0`
+whose outputs are the pattern's outputs — `Pattern.match(…, check_nodes_are_removable=False)`
+reports a match `r`, and with `check_nodes_are_removable=True` a match is reported **iff** no
+intermediate value of the nodes `r` found is a graph output or used outside them.
+The unrestricted statement is refuted by `match_complete_full_refuted` (BacktrackingOr, D11);
+patterns with several output nodes are not covered (their candidate filter is finding C06-F5). -/
+theorem match_complete_partial (E : Env) (A : Assign) (root : NodeId) (np0 : NPId)
+    (hno : E.p.noOr = true) (htopo : E.p.topo) (hsingle : E.p.outputNodes = [np0])
+    (hroot : OutputsOfRoot E.p np0) (hinst : Instance E root A) (hchk : ChecksPass E.p A) :
+    ∃ r, patternMatch E root false = some r ∧
+      ((patternMatch E root true).isSome = true ↔ Removable E.g r.nodes r.outputs) :=
+  patternMatch_complete_single E A root np0 hno htopo hsingle hroot hinst hchk
+
 /-- **Determinism / first combination in graph order.**  A successful match is the result of
 `_multi_match` on one candidate combination that starts with `root`, and every combination that
 `itertools.product` yields before it failed.  (For a pattern with one output node there is one
@@ -57,6 +75,31 @@ theorem match_deterministic (E : Env) (root : NodeId) (rm : Bool)
       combo.head? = some root ∧
       ∀ c ∈ pre, (multiMatch E rm c).ok = false :=
   matcherMatch_first E root rm h
+
+/-! ## The oracle of the correspondence check is itself verified -/
+
+/-- **`solve` is sound** (whole pattern language: OR patterns, several output nodes, any graph):
+every solution the exhaustive search returns is an instance under the assignment it stands for;
+its `outputs` are the images of the pattern outputs, its `names` contain that assignment, and with
+`remove_nodes` the mapped nodes are removable.  Hypothesis: node patterns refer (also inside OR
+alternatives) only to earlier node patterns — true for every pattern built with the API. -/
+theorem solve_sound (E : Env) (root : NodeId) (rm : Bool) (s : Sol) (htopo : E.p.topoDeep)
+    (h : s ∈ solve E root rm) :
+    ∃ A, Instance E root A ∧ E.p.outputs.mapM (A.outputOf E.p) = some s.outputs ∧
+      (∀ k b, A.names k = some b → s.names.lookup k = some b) ∧
+      (rm = true → Removable E.g s.nodes s.outputs) :=
+  solve_sound_core E root rm s htopo h
+
+/-- **`solve` is complete** (OR patterns and several output nodes included): if *any* assignment
+makes the subgraph ending at `root` an instance, the search returns a solution — and that solution
+is also returned with `remove_nodes` when its nodes are removable.  Hypotheses: acyclic pattern,
+no opaque checker answers `False` (`checksOk`; `solve` evaluates checkers inline, also those of
+named variables, which `ChecksPass` does not mention), and the pattern outputs are outputs of its
+output nodes.  `_partial` for these two side conditions. -/
+theorem solve_complete_partial (E : Env) (root : NodeId) (A : Assign) (htopo : E.p.topoDeep)
+    (hchk : E.p.checksOk = true) (houts : OutputsOfOutputNodes E.p) (hinst : Instance E root A) :
+    ∃ s, s ∈ solve E root false ∧ (Removable E.g s.nodes s.outputs → s ∈ solve E root true) :=
+  solve_complete_core E root A htopo hchk houts hinst
 
 /-! ## `commute` -/
 
@@ -148,6 +191,29 @@ theorem d11_is_instance : Instance d11 1 d11Assign ∧ ChecksPass d11.p d11Assig
   · intro id v _
     simp [d11, GPat.valueChecks, mkNode, vpChecks, vpChecksL, xVar]
 
+/-- the D11 witness satisfies the hypotheses of `solve_complete_partial` (so that theorem is not
+vacuous, and `solve` finds the instance the matcher misses) -/
+example : d11.p.topoDeep ∧ d11.p.checksOk = true ∧ OutputsOfOutputNodes d11.p ∧
+    (solve d11 1 true).length = 1 := by
+  refine ⟨?_, by decide, ?_, by decide⟩
+  · intro np P hP vp hin q hq
+    match np with
+    | 0 =>
+      simp [d11, mkNode] at hP; subst hP
+      simp [xVar] at hin; subst hin
+      simp [VPat.refs] at hq
+    | 1 =>
+      simp [d11, mkNode] at hP; subst hP
+      simp [xVar] at hin
+      rcases hin with rfl | rfl
+      · simp [VPat.refs, refsL] at hq; simp [hq]
+      · simp [VPat.refs] at hq
+    | n + 2 => simp [d11] at hP
+  · intro vp hvp
+    simp [d11] at hvp
+    subst hvp
+    exact ⟨1, 0, _, rfl, by decide, rfl, by simp [mkNode]⟩
+
 /-- **Completeness fails in general** (finding C06-D11, reproduced on the real matcher): the first
 locally successful alternative of a `BacktrackingOr` is committed and never revisited.  The full
 statement "every instance whose checkers accept is reported" is false. -/
@@ -229,6 +295,75 @@ example : okEnv.p.noOr = true ∧ okEnv.p.topo ∧ OutputArityOk okEnv.p okEnv.g
     simp [okEnv, mkNode] at hP
     simp [okEnv, mkGNode] at hN
     rcases hP with rfl | rfl <;> rcases hN with rfl | rfl <;> simp
+
+def okAssign : Assign :=
+  { names := fun k => if k = "x" then some (.val 0) else none
+    node := fun np => if np = 0 then some 0 else if np = 1 then some 1 else none
+    leaf := fun k => if k = .outp 0 0 then some (some 1) else if k = .outp 1 0 then some (some 2) else none }
+
+/-- the hypotheses of `match_complete_partial` are satisfiable: `Sub(Neg(x), x)` on its instance -/
+example : okEnv.p.noOr = true ∧ okEnv.p.outputNodes = [1] ∧ OutputsOfRoot okEnv.p 1 ∧
+    Instance okEnv 1 okAssign ∧ ChecksPass okEnv.p okAssign := by
+  have hx : SatV okEnv okAssign xVar (some 0) :=
+    .var 1 (some "x") true false none (some 0)
+      (by simp [Assign.boundTo, GPat.vname, okAssign, Bound.ofVal]) (by intro h; cases h)
+      (by intro x _ h; simp [okEnv, Graph.isForeign] at h)
+  have hn0 : SatN okEnv okAssign 0 0 := by
+    refine .mk 0 0 (mkNode "Neg" [some xVar] 1) (mkGNode "Neg" [some 0] [1]) rfl rfl rfl
+      (by decide) (by decide) ?_ (.inl (by decide)) ?_ ?_ ?_
+    · exact ⟨fun name ap h => by simp [mkNode] at h, fun h => by simp [mkNode] at h⟩
+    · intro i h
+      match i with
+      | 0 => simp [mkNode] at h
+      | n + 1 => simp [mkNode] at h
+    · intro i vp h
+      match i with
+      | 0 => simp [mkNode] at h; subst h; exact hx
+      | n + 1 => simp [mkNode] at h
+    · intro i hi
+      have : i = 0 := by simp [mkNode] at hi; omega
+      subst this
+      exact ⟨1, rfl, by simp [Assign.boundTo, GPat.vname, GPat.outName, VPat.key, okAssign, okEnv, mkNode]⟩
+  have ho : SatV okEnv okAssign (.out 0 0) (some 1) :=
+    .out 0 0 1 0 (by simp [Assign.boundTo, GPat.vname, GPat.outName, VPat.key, okAssign, okEnv, mkNode])
+      (by simp [okEnv, Graph.isForeign]) (by decide) (by decide) hn0
+  have hn1 : SatN okEnv okAssign 1 1 := by
+    refine .mk 1 1 (mkNode "Sub" [some (.out 0 0), some xVar] 1) (mkGNode "Sub" [some 1, some 0] [2])
+      rfl rfl rfl (by decide) (by decide) ?_ (.inl (by decide)) ?_ ?_ ?_
+    · exact ⟨fun name ap h => by simp [mkNode] at h, fun h => by simp [mkNode] at h⟩
+    · intro i h
+      match i with
+      | 0 => simp [mkNode] at h
+      | 1 => simp [mkNode] at h
+      | n + 2 => simp [mkNode] at h
+    · intro i vp h
+      match i with
+      | 0 => simp [mkNode] at h; subst h; exact ho
+      | 1 => simp [mkNode] at h; subst h; exact hx
+      | n + 2 => simp [mkNode] at h
+    · intro i hi
+      have : i = 0 := by simp [mkNode] at hi; omega
+      subst this
+      exact ⟨2, rfl, by simp [Assign.boundTo, GPat.vname, GPat.outName, VPat.key, okAssign, okEnv, mkNode]⟩
+  refine ⟨by decide, by decide, ?_, ⟨?_, ?_, rfl⟩, ⟨?_, ?_⟩⟩
+  · intro vp hvp
+    simp [okEnv] at hvp
+    subst hvp
+    exact ⟨0, _, rfl, rfl, by simp [mkNode]⟩
+  · intro np h
+    have : np = 1 := by simpa [okEnv, GPat.outputNodes, GPat.outputNodesCov] using h.symm
+    subst this; rfl
+  · intro np h
+    have : np = 1 := by simpa [okEnv, GPat.outputNodes, GPat.outputNodesCov] using h
+    subst this
+    exact ⟨1, rfl, hn1⟩
+  · intro np n P hnode hP
+    match np with
+    | 0 => simp [okEnv, mkNode] at hP; subst hP; simp
+    | 1 => simp [okEnv, mkNode] at hP; subst hP; simp
+    | k + 2 => simp [okEnv] at hP
+  · intro id v _
+    simp [okEnv, GPat.valueChecks, mkNode, vpChecks, vpChecksL, xVar]
 
 def f2Pat : GPat :=
   { inputs := [some "x"], cond := true,
